@@ -76,7 +76,8 @@ class C11:
         rows = {}
         fallthrough = []
         for r in s.returns:
-            tags = [c[3][1] for c in conjuncts(r.live) if c[0] == "cmp" and c[1] == "eq" and c[2] == ("attr", g, "type") and c[3][0] == "const"]
+            from sa.idioms import selected_tags
+            tags = selected_tags(r.live, ("attr", g, "type"))
             if len(tags) == 1:
                 rows[tags[0]] = r
             elif not tags:
